@@ -310,11 +310,17 @@ Proof.
 Qed.
 
 (** the decoded offset is never negative (uint64 seconds, uint32 nanoseconds) *)
+Lemma wrap_unsigned_nonneg a : (0 <= wrap U64 a)%Z /\ (0 <= wrap U32 a)%Z.
+Proof.
+  pose proof (wrap_range U64 a) as R1. pose proof (wrap_range U32 a) as R2.
+  unfold in_ity, ity_min, ity_max in R1, R2. cbn [ity_signed ity_bits] in R1, R2. lia.
+Qed.
+
 Lemma dec_offset_nonneg ipd k : (0 <= dec_offset ipd k)%Z.
 Proof.
-  unfold dec_offset, dec.
-  destruct (f64_ge _ _);
-  match goal with |- (0 <= wrap U64 ?a * _ + wrap U32 ?b)%Z =>
-    pose proof (wrap_range U64 a) as R1; pose proof (wrap_range U32 b) as R2 end;
-  unfold in_ity, ity_min, ity_max in R1, R2; cbn [ity_signed ity_bits] in R1, R2; lia.
+  unfold dec_offset. destruct (dec 0 ipd k) as [s n] eqn:E. unfold dec in E.
+  repeat match type of E with context [if ?c then _ else _] => destruct c end;
+    injection E as <- <-;
+    match goal with |- (0 <= wrap U64 ?a * _ + wrap U32 ?b)%Z =>
+      pose proof (proj1 (wrap_unsigned_nonneg a)); pose proof (proj2 (wrap_unsigned_nonneg b)) end; lia.
 Qed.
